@@ -418,6 +418,14 @@ def dep_gio():
     return ns
 
 
+def dep_foobar():
+    """An included namespace whose name and identifier prefix extend the scanned
+    namespace's own (Foo / FooBar, like Gdk / GdkPixbuf)."""
+    ns = ast.Namespace('FooBar', '1.0', identifier_prefixes=['FooBar'], symbol_prefixes=['foo_bar'])
+    ns.append(ast.Record('Thing', 'FooBarThing'))
+    return ns
+
+
 # --------------------------------------------------------------------------
 # pipeline
 
@@ -426,14 +434,14 @@ class Scan(object):
 
     def __init__(self, ns_name='Foo', version='1.0', identifier_prefixes=None,
                  symbol_prefixes=None, accept_unprefixed=False,
-                 deps=('GLib', 'GObject', 'Gio')):
+                 deps=('GLib', 'GObject', 'Gio', 'FooBar')):
         self.namespace = ast.Namespace(ns_name, version,
                                        identifier_prefixes=identifier_prefixes,
                                        symbol_prefixes=symbol_prefixes)
         self.log = install_logger(self.namespace)
         self.transformer = transformer.Transformer(self.namespace,
                                                    accept_unprefixed=accept_unprefixed)
-        makers = {'GLib': dep_glib, 'GObject': dep_gobject, 'Gio': dep_gio}
+        makers = {'GLib': dep_glib, 'GObject': dep_gobject, 'Gio': dep_gio, 'FooBar': dep_foobar}
         for d in deps:
             dn = makers[d]()
             self.transformer._parsed_includes[dn.name] = dn
